@@ -101,3 +101,23 @@ package keeper
 //@   letpost b1 = k.lend.GetBorrow(ctx, borrowID).0
 //@   ensures [C09] #c09-borrow-only-unsafe: result == nil && bf0 && !b0.IsLiquidated && b1.IsLiquidated ==> K("lend").CalculateCollateralizationRatio(ctx, b1.AmountIn.Amount, ain, b1.AmountOut.Amount + trunc(b1.InterestAccumulated), aout).1 == nil && K("lend").CalculateCollateralizationRatio(ctx, b1.AmountIn.Amount, ain, b1.AmountOut.Amount + trunc(b1.InterestAccumulated), aout).0 > thr
 //@   fails_if [C14] #c14-breaker: bf0 && !b0.IsLiquidated && k.lend.GetLend(ctx, b0.LendingID).1 && k.esm.GetKillSwitchData(ctx, l0.AppID).0.BreakerEnable
+
+// Handing a seized borrow to the auction (C08): the borrowed principal leaves the published total it was counted in - the
+// stable total for a stable-rate borrow, the variable total otherwise - and the pledged collateral leaves the published
+// lend total of its asset; the other total of the borrowed asset is untouched.
+//@ func (k Keeper) UpdateLockedBorrows
+//@   property C08
+//@   let B = borrow
+//@   let so0 = k.lend.GetAssetStatsByPoolIDAndAssetID(ctx, lendPair.AssetOutPoolID, lendPair.AssetOut).0
+//@   let l0 = k.lend.GetLend(ctx, borrow.LendingID).0
+//@   let sof0 = k.lend.GetAssetStatsByPoolIDAndAssetID(ctx, lendPair.AssetOutPoolID, lendPair.AssetOut).1
+//@   let sif0 = k.lend.GetAssetStatsByPoolIDAndAssetID(ctx, k.lend.GetLend(ctx, borrow.LendingID).0.PoolID, k.lend.GetLend(ctx, borrow.LendingID).0.AssetID).1
+//@   let si0 = k.lend.GetAssetStatsByPoolIDAndAssetID(ctx, l0.PoolID, l0.AssetID).0
+//@   requires #out-stats-keyed: k.lend.GetAssetStatsByPoolIDAndAssetID(ctx, lendPair.AssetOutPoolID, lendPair.AssetOut).1 ==> so0.PoolID == lendPair.AssetOutPoolID && so0.AssetID == lendPair.AssetOut
+//@   requires #in-stats-keyed: k.lend.GetAssetStatsByPoolIDAndAssetID(ctx, l0.PoolID, l0.AssetID).1 ==> si0.PoolID == l0.PoolID && si0.AssetID == l0.AssetID
+//@   requires #totals-exist: sof0 && sif0
+//@   requires #distinct-assets: !(l0.PoolID == lendPair.AssetOutPoolID && l0.AssetID == lendPair.AssetOut)
+//@   letpost so1 = k.lend.GetAssetStatsByPoolIDAndAssetID(ctx, lendPair.AssetOutPoolID, lendPair.AssetOut).0
+//@   letpost si1 = k.lend.GetAssetStatsByPoolIDAndAssetID(ctx, l0.PoolID, l0.AssetID).0
+//@   ensures #c08-seized-principal-leaves-its-own-total: result == nil && sof0 ==> so1.TotalBorrowed == so0.TotalBorrowed - ite(B.IsStableBorrow, 0, B.AmountOut.Amount) && so1.TotalStableBorrowed == so0.TotalStableBorrowed - ite(B.IsStableBorrow, B.AmountOut.Amount, 0)
+//@   ensures #c08-seized-collateral-leaves-lend-total: result == nil && sif0 ==> si1.TotalLend == si0.TotalLend - B.AmountIn.Amount
